@@ -9,6 +9,7 @@ cdef class QuestionHistory:
 
     cdef cython.dict _history
 
+    @cython.locals(previous_question=cython.tuple)
     cpdef void add_question_at_time(self, DNSQuestion question, double now, cython.set known_answers)
 
     @cython.locals(than=double, previous_question=cython.tuple, previous_known_answers=cython.set)
